@@ -50,6 +50,9 @@ def cases(tier, seed):
             seqs = [s for s in seqs if len(s) <= 3]
         if pi == 3:  # isolation pool: only sequences made of add / run / run_all matter (mpe variants are covered by pools 0, 1)
             seqs = [s for s in seqs if len(s) <= 3] if tier == "quick" else seqs
+        if pi in (0, 1):
+            # targeted longer histories (in both tiers): run, extract, run again (by name / through run_all), extract again
+            seqs += [h for i in range(3) for h in ([i, 3 + i, 6 + i, 3 + i], [i, 3 + i, 6 + i, 9], [i, 3 + i, 6 + i, 3 + i, 6 + i], [i, 3 + i, 6 + i, 9, 6 + i])]
         for c0 in range(0, len(seqs), 60):
             out.append({"cls": "enumerated", "pool": pi, "seqs": seqs[c0:c0 + 60], "k": c0})
     ns, nm = (60, 16) if tier == "quick" else (1200, 200)
